@@ -18,6 +18,9 @@ CLAIMED = {
  'C13': dict(technique='Lean 4 theorems (dd = 0 on counter vectors, enumeration = boundary, index/counter bijection) + executable position-level model incl. periodic wrap + differential correspondence + independent Python geometric spec',
              text='The cubical boundary on counter vectors is proved to square to zero in every dimension and the C++ enumeration with alternating signs is proved to be that boundary; the flat-index/counter maps are proved inverse. gvdriver C13 runs a position-level model (both classes, periodic wrap, coboundary, lower-star values under both conventions, filtration order) against the real classes for every small shape and random shapes, the harness evaluates dd = 0 on the real output (enumeration signs and incidence function), persistence over Z2/Z3/Zp is compared with the reference reduction, and a Python geometric specification checks every cell independently.',
              note='Lean kernel + standard axioms; position-level model tied to the counter-level theorems by correspondence (partial); integer values with +-infinity tokens', ref='§5 C13'),
+ 'C02': dict(technique='Lean 4 theorems (uniqueness of the pairing, reference reduction is a certificate over every Z_p, dense persistent cohomology = reference pairs) + executable CAM model + differential correspondence + independent Python reduction',
+             text='cert_unique, reduceAllP_cert and drun_final prove for any field and any boundary matrix that the reference reduction and the dense cohomology algorithm compute the same, unique pairing; gvdriver C02 runs the compressed-annotation-matrix model and the reference reduction (and compares them on every input) against Persistent_cohomology on simplex trees (two option sets), Hasse complexes and cubical complexes over Z_p, and the multi-field engine prime by prime, including min_interval_length, persistence_dim_max, Betti and persistent Betti numbers; a Python reduction is a second independent oracle.',
+             note='Lean kernel + Mathlib linear algebra, standard axioms; CAM model ⊑ dense algorithm not yet proved (partial, compared on every input); multi-field projection is an executable spec', ref='§5 C02'),
 }
 ALL = ['C%02d' % i for i in range(1, 21)]
 checks = []
